@@ -127,6 +127,7 @@ def lp (st : List LS.LStep) : List LS.LStep := LS.leaderPart st false
 def lmonFor : String → List LMonitor
   | "C05" => [fun st => at2 "commit" (LS.commitRule st 0)]
   | "C07" => [fun st => at2 "membership" (LS.oneChangeAtATime st false 0), fun st => at2 "membership" (LS.stalePrevRefused st 0),
+              fun st => at2 "membership" (LS.latestConfigInLog st 0),
               fun st => at2 "follower" (LS.followerRules st 0)]
   | "C14" => [fun st => at2 "follower" (LS.followerRules st 0)]
   | "C13" => [fun st => at2 "lease" (LS.leaseRule st 0 [] 0)]
@@ -143,7 +144,7 @@ def lmonFor : String → List LMonitor
               fun st => at2 "follower" (LS.followerRules st 0)]
   | "C01" => [fun st => at2 "membership" (LS.oneChangeAtATime st false 0), fun st => at2 "leader" (LS.requestsSpeakForLedTerm st none 0)]
   | _ => [fun st => at2 "commit" (LS.commitRule st 0), fun st => at2 "membership" (LS.oneChangeAtATime st false 0),
-          fun st => at2 "membership" (LS.stalePrevRefused st 0),
+          fun st => at2 "membership" (LS.stalePrevRefused st 0), fun st => at2 "membership" (LS.latestConfigInLog st 0),
           fun st => at2 "client" (LS.ackExact (lp st) 0 (lp st)), fun st => LS.ackOrder (lp st), fun st => LS.fsmInOrder (lp st), LS.verifyFresh, LS.nothingStranded,
           LS.notifyFaithful, fun st => at2 "leader" (LS.requestsFromLog st 0), fun st => at2 "leader" (LS.requestsSpeakForLedTerm st none 0),
           fun st => at2 "leader" (LS.requestsToCurrentAddress st 0), fun st => at2 "follower" (LS.followerRules st 0),
